@@ -37,12 +37,12 @@ def sandbox(tmp, lua_final_nl):
     S = tempfile.mkdtemp(prefix='c20_', dir=tmp)
     os.makedirs(os.path.join(S, 'sub'))
     for d in ('', 'sub'):
-        with open(os.path.join(S, d, 'L.lua'), 'wb') as f:
+        with open(os.path.join(S, d, 'T.lua'), 'wb') as f:
             f.write(b'l1=1\nl2=2' + (b'\n' if lua_final_nl else b''))
-        with open(os.path.join(S, d, 'C.p8'), 'wb') as f:
+        with open(os.path.join(S, d, 'T.p8'), 'wb') as f:
             f.write(HDR + b'c1=1\n-->8\nc2=2\n#include L.lua\nc3=3\n-->8\n__gfx__\n')
         g = cartio.make_game(cartio.memory((0, 0), {}), LINE['P1'] + b'\n' + LINE['P2'] + b'\n', None, 8)
-        gfile.to_file(g, os.path.join(S, d, 'P.p8.png'))
+        gfile.to_file(g, os.path.join(S, d, 'T.p8.png'))
     _SB[key] = S
     return S
 
@@ -58,7 +58,7 @@ def _case(item):
             k += 1
             lines.append(b'm%d=%d' % (k, k))
         else:
-            name = {'L': 'L.lua', 'C': 'C.p8', 'P': 'P.p8.png', 'missing': 'nothere.lua'}[it['t']]
+            name = {'L': 'T.lua', 'C': 'T.p8', 'P': 'T.p8.png', 'missing': 'nothere.lua'}[it['t']]      # (the three targets share their stem)
             path = (it['dir'] + '/' if it['dir'] else '') + name
             sel = (':%d' % it['tab']) if it['tab'] >= 0 else ''
             lines.append(b'#include ' + path.encode() + sel.encode())
